@@ -525,13 +525,19 @@ func (w *writer) mark(exp expTok, class string, idx int) placed {
 	return placed{exp: exp, class: class, lexIdx: idx, line: w.line, bcol: w.bcol, rcol: w.rcol, off: w.sb.Len()}
 }
 
-// writeString writes the quoted parts of a string literal; between parts only
-// white space (never a comment, never nothing).
+// writeString writes the quoted parts of a string literal; between parts white
+// space and comments (never nothing).
 func (w *writer) writeString(r *rand.Rand, parts []string, counts map[string]int64) {
 	for i, p := range parts {
 		if i > 0 {
 			for n := 1 + r.IntN(3); n > 0; n-- {
-				switch r.IntN(5) {
+				switch r.IntN(7) {
+				case 5:
+					w.write(genComment(r, "#") + genNL(r))
+					counts["strpart_sep.hash_comment"]++
+				case 6:
+					w.write(genComment(r, "//") + genNL(r))
+					counts["strpart_sep.slash_comment"]++
 				case 0, 1:
 					w.write(strings.Repeat(" ", 1+r.IntN(6)))
 					counts["strpart_sep.space"]++
